@@ -1,7 +1,10 @@
 import ZV.Model.C18
+import ZV.Model.C18Dom
 /-! line protocol for C18 (shared with C20):
     `c18 m <schema> <p=tagstring> <value>`   →  `ok <hex>` | `err`
     `c18 u <schema> <p=tagstring> <hex>`     →  `ok <value> <len(rest)>` | `err`
+    `c18 d <schema> <p=tagstring> <value>`   →  `in` | `out`   (the domain `InDomain` of the round-trip theorem; the harness
+                                                  sends the values of ITS documented domain and prints `in`)
     schema / value are `;`-separated prefix-notation token lists:
       schema:  i64 i32 enum big bool oid bits oct str raw flag | S<n> (p=<tagstring> schema)×n | L schema | LS schema
       value:   i<dec> | t | f | x<hex> | n | o<a.b.c> | b<bitlen>:<hex> | r<cls>:<tag>:<t|f>:<hex>:<hex> | V<n> value×n -/
@@ -160,6 +163,10 @@ def handle (args : List String) : String :=
   | ["m", sc, p, v] =>
     (match parseSchema sc, parseP p, parseVal v with
      | some s, some p, some v => showBytesRes (marshal s p v)
+     | _, _, _ => "bad-op")
+  | ["d", sc, p, v] =>
+    (match parseSchema sc, parseP p, parseVal v with
+     | some s, some p, some v => if InDomain s p v then "in" else "out"
      | _, _, _ => "bad-op")
   | ["u", sc, p, h] =>
     (match parseSchema sc, parseP p, ofHex h with
